@@ -79,9 +79,11 @@ def run(prog, cache, plugin=None):
     try:
         if plugin:
             _, stack, _ = functions.run_script(
-                prog, cache, plugins={'signature_extensions': [EXTS[plugin]]})
+                prog, cache, plugins={'signature_extensions': [EXTS[plugin]]},
+                **env.roomy_limits(prog))
         else:
-            _, stack, _ = functions.run_script(prog, cache)
+            _, stack, _ = functions.run_script(prog, cache,
+                                               **env.roomy_limits(prog))
         return list(stack.deque), None
     except BaseException as e:
         return None, e
